@@ -11,7 +11,7 @@ def sh(cmd):
     return subprocess.run(cmd, shell=True, capture_output=True, text=True)
 
 def clean():
-    return sh(f"git -C {REPO} status --porcelain --untracked-files=no").stdout.strip() == ""
+    return sh(f"git -C {REPO} status --porcelain").stdout.strip() == ""
 
 assert clean()
 ok = True
@@ -28,7 +28,7 @@ for sid in (sys.argv[1:] or DEFAULT):
         path = m.group(1)
         r1 = sh(f"cd /verif && sim/check.sh {prop} --replay {path}")
     finally:
-        sh(f"git -C {REPO} checkout -- .")
+        sh(f"git -C {REPO} checkout -- . && git -C {REPO} clean -fdq -- src tests")
     r2 = sh(f"cd /verif && sim/check.sh {prop} --replay {path}")
     good = r1.returncode == 1 and r2.returncode == 0
     ok &= good
